@@ -158,6 +158,17 @@ func (fc *FuncCtx) verifyBody(short string) {
 	if fc.guardMode && fc.guardAcc != nil {
 		// lock-free accessor: the lock of the object it is handed is held on entry (checked at every call site)
 		for pi, lock := range fc.guardAcc[fn] {
+			if pi < 0 {
+				dot := strings.LastIndex(lock, ".")
+				if lt := fc.eng.lookupType(fnPkgPath(fn), lock[:dot]); lt != nil {
+					key := "L!O!" + typeKey(lt) + "." + lock[dot+1:]
+					ref := fc.u.fresh("flk", "Int")
+					cur := fc.compTerm(st, key, "(Array Int Bool)")
+					fc.setComp(st, key, "(Array Int Bool)", "(store "+cur+" "+ref+" true)")
+					st.heldLocks = append(st.heldLocks, key+"|"+ref)
+				}
+				continue
+			}
 			if pi < len(params) {
 				pv, ok := fr.vals[params[pi]].(Scalar)
 				pt, isPtr := params[pi].Type().Underlying().(*types.Pointer)
@@ -209,6 +220,7 @@ func (fc *FuncCtx) verifyBody(short string) {
 		return
 	}
 	exit, results := fc.execFrame(fr, st)
+	fc.watchObligations(fr)
 	if exit.dead {
 		if len(con.Ensures) > 0 {
 			fc.driftf(fr, "function has no reachable return, but the contract has ensures clauses")
@@ -399,6 +411,7 @@ func (e *Engine) VerifyLemma(lm *LemmaDecl) *Unit {
 func (fc *FuncCtx) verifyPaths(fr *Frame, st *State, entrySnap *State, short string) {
 	fn, con := fc.fn, fc.con
 	rets := fc.execFramePaths(fr, st)
+	fc.watchObligations(fr)
 	if len(rets) == 0 {
 		if len(con.Ensures) > 0 {
 			fc.driftf(fr, "function has no reachable return, but the contract has ensures clauses")
